@@ -5,6 +5,8 @@ package c07
 
 import (
 	"fmt"
+	"math"
+	"os"
 	"strings"
 	"testing"
 
@@ -103,12 +105,17 @@ func (g *g) intE(d int) *N {
 	case 8:
 		g.f("nil_coalescing")
 		var l *N
-		switch g.n(0, 2, "coalL") {
+		switch g.n(0, 3, "coalL") {
 		case 0:
 			l = g.leaf(&N{K: "nil"}, false)
 		case 1:
 			l = &N{K: "pfail", I: g.nid()}
 			g.f("raising_operand")
+		case 3:
+			// an index expression, directly on the left of ??, that fails or yields nil: the right side
+			// gives the value, the operands of the index expression have run once
+			l = g.idxForm(d-1, true)
+			g.f("index_expression_left_of_coalesce")
 		default:
 			l = g.intE(d - 1)
 		}
@@ -166,7 +173,7 @@ func (g *g) listE(d int) *N {
 }
 
 func (g *g) condE(d int) *N {
-	k := g.n(0, 7, "cond")
+	k := g.n(0, 8, "cond")
 	if d <= 0 {
 		k %= 2
 	}
@@ -174,6 +181,8 @@ func (g *g) condE(d int) *N {
 	case 0, 1:
 		vals := []interface{}{true, false, 0, 1, nil, "", "abc"}
 		return g.leaf(lit(vals[g.n(0, len(vals)-1, "cv")]), true)
+	case 8:
+		return g.chainE(d, 3, 6)
 	case 7:
 		// the binary operator `item in list`: item first, then list - also when the right side turns
 		// out not to be a list (the left operand has run by then) or the left side raises (the right never runs)
@@ -202,7 +211,15 @@ func (g *g) condE(d int) *N {
 }
 
 func (g *g) anyE(d int) *N {
-	switch g.n(0, 7, "any") {
+	switch g.n(0, 9, "any") {
+	case 8:
+		// index expressions beyond "element of a list that is there"
+		return g.idxForm(d, false)
+	case 9:
+		// ... and directly on the left of ??
+		g.f("nil_coalescing")
+		g.f("index_expression_left_of_coalesce")
+		return &N{K: "coal", Ns: []*N{g.idxForm(d, false), g.anyE(d - 1)}}
 	case 7:
 		// containers supplied by the host: a nil Go map (no script-made map is nil), a Go array
 		switch g.n(0, 2, "hostc") {
@@ -268,6 +285,129 @@ func (g *g) unusableKey() *N {
 		return g.leaf(&N{K: "map", Ns: []*N{Str("a"), Int(1)}}, false)
 	}
 	return g.leaf(&N{K: "list", Ns: []*N{Int(int64(g.n(1, 9, "uk")))}}, false)
+}
+
+// chainE is a chain a && b && c ... or a || b || c ... of lo..hi operands written without inner
+// parentheses. Mostly the operands are probes whose truthiness is drawn so that the position of the
+// deciding operand (or none) is drawn; sometimes an operand is a condition of its own (in parentheses).
+func (g *g) chainE(d, lo, hi int) *N {
+	op := rapid.SampledFrom([]string{"&&", "||"}).Draw(g.t, "chainop")
+	n := g.n(lo, hi, "chainlen")
+	g.f("operator_chain")
+	switch {
+	case n <= 3:
+		g.f("operator_chain_len_2_3")
+	case n <= 8:
+		g.f("operator_chain_len_4_8")
+	default:
+		g.f("operator_chain_len_9_up")
+	}
+	// the operand that decides the chain: position n = none does
+	decide := g.n(0, n, "decide")
+	if g.n(0, 2, "nodecide") == 0 {
+		decide = n
+	}
+	goOn := []interface{}{true, 1, "abc"} // && goes on after these, || stops
+	stop := []interface{}{false, 0, nil, ""}
+	if op == "||" {
+		goOn, stop = stop, goOn
+	}
+	c := &N{K: "chain", S: op}
+	for i := 0; i < n; i++ {
+		if d > 0 && g.n(0, 7, "chainsub") == 0 {
+			c.Ns = append(c.Ns, g.condE(d-1))
+			continue
+		}
+		pool := goOn
+		if i == decide {
+			pool = stop
+		}
+		c.Ns = append(c.Ns, g.leaf(lit(pool[g.n(0, len(pool)-1, "cv")]), n <= 8))
+	}
+	return c
+}
+
+// idxForm is an index expression whose item is not (only) a list with the element there: a string
+// (index inside or outside), a list or a host array element that is not there, a map with or without
+// the key, a nil host map, or a value that has no index operation at all (the index is a constant then:
+// whether it would still run is not specified). failing: only forms that fail or yield nil.
+func (g *g) idxForm(d int, failing bool) *N {
+	k := g.n(0, 7, "idxform")
+	if failing && (k == 0 || k == 5) {
+		k++
+	}
+	word := rapid.SampledFrom([]string{"abc", "xy", "q"}).Draw(g.t, "word")
+	switch k {
+	case 0:
+		g.f("index_of_string_inside")
+		return &N{K: "idx", Ns: []*N{g.strItem(word), g.leaf(Int(int64(g.n(0, len(word)-1, "six"))), true)}}
+	case 1:
+		g.f("index_of_string_outside")
+		ix := int64(len(word) + g.n(0, 2, "sox"))
+		if g.n(0, 3, "negix") == 0 {
+			ix = -int64(g.n(1, 2, "sneg"))
+		}
+		return &N{K: "idx", Ns: []*N{g.strItem(word), g.leaf(Int(ix), true)}}
+	case 2, 3:
+		g.f("index_of_unindexable_value")
+		var item *N
+		switch g.n(0, 4, "unidx") {
+		case 0:
+			item = &N{K: "nil"}
+		case 1:
+			item = &N{K: "true"}
+		case 2:
+			item = Int(int64(g.n(0, 9, "uv")))
+		case 3:
+			item = &N{K: "flt", I: int64(math.Float64bits(1.5))}
+		default:
+			item = Id("nv") // a variable holding nil
+		}
+		if item.K != "id" || g.n(0, 1, "unprobe") == 0 {
+			item = g.leaf(item, true)
+		}
+		ix := Int(int64(g.n(0, 2, "uix")))
+		if g.n(0, 2, "ustr") == 0 {
+			ix = Str("k")
+		}
+		return &N{K: "idx", Ns: []*N{item, ix}}
+	case 4:
+		g.f("index_of_list_outside")
+		ix := int64(g.n(3, 5, "lox"))
+		if g.n(0, 3, "negix") == 0 {
+			ix = -int64(g.n(1, 2, "lneg"))
+		}
+		item := g.leaf(&N{K: "list", Ns: []*N{Int(5), Int(6), Int(7)}}, true)
+		if g.n(0, 2, "litlist") == 0 {
+			item = &N{K: "list", Ns: []*N{g.intE(d - 1), g.intE(d - 1)}}
+			if ix == 3 {
+				ix = 2
+			}
+		}
+		return &N{K: "idx", Ns: []*N{item, g.leaf(Int(ix), true)}}
+	case 5:
+		g.f("index_of_map_key_present")
+		return &N{K: "idx", Ns: []*N{g.leaf(&N{K: "map", Ns: []*N{Str("a"), Int(int64(g.n(1, 9, "mv"))), Str("n"), {K: "nil"}}}, true), g.leaf(Str("a"), true)}}
+	case 6:
+		g.f("index_of_map_key_missing_or_nil")
+		return &N{K: "idx", Ns: []*N{g.leaf(&N{K: "map", Ns: []*N{Str("a"), Int(1), Str("n"), {K: "nil"}}}, true), g.leaf(Str(rapid.SampledFrom([]string{"n", "zz"}).Draw(g.t, "mk")), true)}}
+	default:
+		g.f("index_of_nil_host_map")
+		return &N{K: "idx", Ns: []*N{Id(rapid.SampledFrom([]string{"hnil", "hnilm"}).Draw(g.t, "hn")), g.leaf(Str("k"), true)}}
+	}
+}
+
+// strItem is a string operand: a probe returning it, the literal, or a concatenation of two probes.
+func (g *g) strItem(word string) *N {
+	switch g.n(0, 3, "stritem") {
+	case 0:
+		return Str(word)
+	case 1:
+		if len(word) >= 2 {
+			return Bin("+", g.leaf(Str(word[:1]), true), g.leaf(Str(word[1:]), true))
+		}
+	}
+	return g.leaf(Str(word), true)
 }
 
 type callee struct {
@@ -715,7 +855,13 @@ func oracle(c Case, o *h.Obs) *h.Fail {
 				}
 			}
 		}
-		f := h.Failf("C07|"+v.Clause, "program:\n%s\n%s", v.Src, v.Detail)
+		sig := "C07|" + v.Clause
+		if v.Clause == "trace" {
+			if b := blameForm(c.Prog, v.Out.Trace, v.GotTrace); b != "" {
+				sig += "|" + b
+			}
+		}
+		f := h.Failf(sig, "program:\n%s\n%s", v.Src, v.Detail)
 		f.NoShrink = v.Clause == "no-termination"
 		return f
 	}
@@ -723,6 +869,107 @@ func oracle(c Case, o *h.Obs) *h.Fail {
 		return h.Failf("C07|op-assign-order", "program:\n%s\n%s\nanko trace: %v", v.Src, msg, v.GotTrace)
 	}
 	return nil
+}
+
+// traceID reads the probe id of a trace entry ("p i:7 ...", "pfail i:7").
+func traceID(e string) (int64, bool) {
+	f := strings.Fields(e)
+	if len(f) < 2 || (f[0] != "p" && f[0] != "pfail") || !strings.HasPrefix(f[1], "i:") {
+		return 0, false
+	}
+	var id int64
+	if _, err := fmt.Sscanf(f[1][2:], "%d", &id); err != nil {
+		return 0, false
+	}
+	return id, true
+}
+
+// staticNonList: the item operand of an index expression is, by its text, a string or a value without
+// index operation (a literal, a probe returning one, a concatenation, the nil variable).
+func staticNonList(item *N) bool {
+	switch item.K {
+	case "str", "nil", "true", "false", "int", "flt":
+		return true
+	case "id":
+		return item.S == "nv"
+	case "p":
+		return len(item.Ns) == 1 && staticNonList(item.Ns[0])
+	case "bin":
+		return item.S == "+" && staticNonList(item.Ns[0]) && staticNonList(item.Ns[1])
+	}
+	return false
+}
+
+// blameForm names the form of the seventh-round input classes that encloses the probe at which the
+// traces of the model and of anko part (the probe anko ran there, or, when anko's trace ended, the one
+// the model expected): the innermost operator chain written without parentheses, index expression
+// directly on the left of ??, or index expression on a string / a value without index operation.
+// "" when the probe is inside none of them (the signature stays the plain trace clause).
+func blameForm(prog []*N, want, got []string) string {
+	i, ok := MatchTrace(want, got)
+	if ok {
+		return ""
+	}
+	var id int64
+	found := false
+	if i < len(got) {
+		id, found = traceID(got[i])
+	}
+	if !found && i < len(want) {
+		id, found = traceID(want[i])
+	}
+	if !found {
+		return ""
+	}
+	var find func(n *N, encl string) string
+	find = func(n *N, encl string) string {
+		if n == nil {
+			return ""
+		}
+		if (n.K == "p" || n.K == "pfail") && n.I == id {
+			if encl == "" {
+				return "-"
+			}
+			return encl
+		}
+		for k, kid := range n.Ns {
+			e := encl
+			switch {
+			case n.K == "chain":
+				e = "operand-of-an-operator-chain"
+			case n.K == "coal" && k == 0 && kid.K == "idx":
+				e = "index-expression-left-of-coalesce"
+			case n.K == "idx" && staticNonList(n.Ns[0]):
+				if encl != "index-expression-left-of-coalesce" {
+					e = "index-of-a-string-or-unindexable-value"
+				}
+			case n.K == "idx" && encl == "index-expression-left-of-coalesce":
+				// still the operands of that index expression
+			case n.K == "fn":
+				e = ""
+			}
+			if r := find(kid, e); r != "" {
+				return r
+			}
+		}
+		for _, blk := range n.Ss {
+			for _, st := range blk {
+				if r := find(st, ""); r != "" {
+					return r
+				}
+			}
+		}
+		return ""
+	}
+	for _, st := range prog {
+		if r := find(st, ""); r != "" {
+			if r == "-" {
+				return ""
+			}
+			return r
+		}
+	}
+	return ""
 }
 
 // probeIDs collects the ids of the probes below e.
@@ -793,5 +1040,12 @@ func TestC07(t *testing.T) {
 	c := h.New(t, "C07")
 	defer c.Finish()
 	c.Rule("typed expression generator whose leaves are side-effecting probes p(id[,v]) / pfail(id) with unique ids, over: calls of script functions (arity 0-4 direct path, 5-6 reflect path, variadic) and Go functions (fixed, variadic, typed parameters provoking conversion errors) as plain / spread / wrong-arity / anonymous / go / defer calls, list and map literals (typed, untyped and map{...}; also with a key operand whose value can be no map key), every binary operator including `in` (also with a right side that is not a list), index, 2- and 3-index slices, return lists, multi-assignment, var, && || ?: ??, a[i] op= e for every op= of the grammar and a[i]++ (multiplicity, and the first evaluation of every operand of the target before e), a[i] = e (multiplicity only); slot patterns (one root in seven): an operand read from a slot - element of a typed slice / untyped list / array field, map entry, struct field, pointee, plain variable; ints, strings, and lists as the container of an index or slice expression - while another operand of the same binary operator, in, index, slice, list / map literal, return list, multi-assignment or var right-hand side, call argument list (every call path, plain and spread, also deferred) or the callee itself stores into that slot: the result is the one computed from the values at evaluation time; non-trivial = a slot pattern, or >= 3 probe leaves and a short-circuit / raising / unconvertible operand or a reflect-path, variadic, spread, wrong-arity, go or defer call; distinct by source text")
+	if os.Getenv("C07_ONLY") != "sametree" {
 	h.Run(c, "evalorder", c.N(15000, 150000), gen, oracle)
+	}
+	if os.Getenv("C07_ONLY") == "evalorder" {
+		return
+	}
+	c.Rule("sametree: a program of the same generator (1-3 roots, half of them a statement around an operator chain a && b && ... / a || b || ... of 2-32 operands without inner parentheses, the deciding operand drawn) is parsed once and the one tree is run by 2-8 goroutines at the same time, each in a fresh environment of its own, the runs meeting at a barrier before every root; one case in five after a solitary run of the tree; then once more alone; every run is compared with the reference interpreter like a solitary run; non-trivial = at least 3 probe leaves; distinct by goroutine count, warm/cold and source text")
+	h.Run(c, "sametree", c.N(400, 4000), genSameTree, oracleSameTree)
 }
